@@ -159,6 +159,48 @@ static void c04_cycle(int shard, int nshards, const hz::Args& a, hz::Result& r) 
   }
 }
 
+// (iii) dense sweeps: ONE field takes every value of a contiguous range (so every residue of every
+// nested quotient/remainder pair the normaliser computes from it occurs, in particular values whose own
+// carry carries again), the others stay at a base; then every PAIR of sub-day fields over a coarser set.
+static void c04_dense(int shard, int nshards, const hz::Args& a, hz::Result& r) {
+  const long long bases[][6] = {
+      {2016, 1, 28, 17, 14, 12}, {2000, 2, 29, 23, 59, 59}, {1999, 12, 31, 0, 0, 0}, {1970, 1, 1, 0, 0, 0}, {2100, 3, 1, 0, 0, 1},
+      {-1, 1, 1, 12, 30, 30},    {0, 2, 28, 23, 0, 59},     {2400, 12, 31, 23, 59, 0}, {1900, 2, 28, 1, 1, 1},  {-400, 3, 1, 0, 59, 0}};
+  const int nb = static_cast<int>(sizeof(bases) / sizeof(bases[0]));
+  const long long R[6] = {0, 400, 1600, a.thorough() ? 20000 : 4000, a.thorough() ? 200000 : 90000, a.thorough() ? 400000 : 180000};  // half-width per field (month..second)
+  long long idx = 0;
+  for (int b = 0; b < nb; ++b) for (int fld = 1; fld < 6; ++fld) {
+    if (static_cast<int>((idx++) % nshards) != shard) continue;
+    hz::begin_case(3000000 + b * 10 + fld, "C04 dense sweep of field " + std::to_string(fld) + " on base " + std::to_string(b));
+    if (a.time_up()) { r.exhaustive = false; r.note("deadline in C04 dense sweeps"); return; }
+    for (long long v = -R[fld]; v <= R[fld]; ++v) {
+      long long f[6];
+      for (int i = 0; i < 6; ++i) f[i] = bases[b][i];
+      f[fld] = v;
+      c04_one(f, r, (v % 97) == 0, "dense-one-field");
+    }
+  }
+  // pairs: (minute, second), (hour, second), (hour, minute), (day, second), (day, hour) over multiples-of-unit +- 1
+  std::vector<long long> P;
+  for (long long u : {1LL, 12LL, 24LL, 28LL, 60LL, 365LL, 1440LL, 3600LL, 86400LL})
+    for (long long k : {-3LL, -2LL, -1LL, 1LL, 2LL, 3LL}) for (long long e : {-1LL, 0LL, 1LL}) P.push_back(u * k + e);
+  P.push_back(0);
+  std::sort(P.begin(), P.end());
+  P.erase(std::unique(P.begin(), P.end()), P.end());
+  const int pairs[][2] = {{4, 5}, {3, 5}, {3, 4}, {2, 5}, {2, 3}, {2, 4}, {1, 2}, {1, 5}};
+  for (int b = 0; b < nb; ++b) for (auto& pr : pairs) {
+    if (static_cast<int>((idx++) % nshards) != shard) continue;
+    hz::begin_case(3100000 + b * 10 + pr[0] * 6 + pr[1], "C04 dense pairs");
+    if (a.time_up()) { r.exhaustive = false; r.note("deadline in C04 dense pairs"); return; }
+    for (long long x : P) for (long long y : P) {
+      long long f[6];
+      for (int i = 0; i < 6; ++i) f[i] = bases[b][i];
+      f[pr[0]] = x; f[pr[1]] = y;
+      c04_one(f, r, false, "dense-field-pair");
+    }
+  }
+}
+
 static void c04_boundary(int shard, int nshards, const hz::Args& a, hz::Result& r) {
   std::vector<long long> B = {INT64_MIN, INT64_MIN + 1, -(1LL << 62), -146097, -366, -365, -1, 0, 1, 12, 13, 28, 31, 32, 59, 60, 365, 366, 146097, 1LL << 62, INT64_MAX - 1, INT64_MAX};
   if (a.thorough()) { const long long more[] = {29, 30, 61, 146096, 146098, -364, -367}; for (long long m : more) B.push_back(m); }
@@ -492,7 +534,7 @@ int main(int argc, char** argv) {
   const int nshards = 128;
   hz::PoolOpts po; po.workers = a.workers;
   hz::run_shards(nshards, po, a.workdir, [&](const hz::ShardCtl& ctl, hz::Result& r) {
-    if (g_prop == "C04") { c04_cycle(ctl.shard, nshards, a, r); c04_boundary(ctl.shard, nshards, a, r); }
+    if (g_prop == "C04") { c04_dense(ctl.shard, nshards, a, r); c04_cycle(ctl.shard, nshards, a, r); c04_boundary(ctl.shard, nshards, a, r); }
     else if (g_prop == "C05") c05_run(ctl.shard, nshards, a, r);
     else if (g_prop == "C17") c17_run(ctl.shard, nshards, a, r);
   }, &total, [&](long long, const std::string& what) -> std::vector<std::string> {
